@@ -93,6 +93,7 @@ type c24Client struct {
 	told      bool
 	lastSent  api.SyncStatus
 	sig       chan c24Sig
+	done      chan struct{} // closed when the connection goroutine has returned
 	resume    chan bool
 	// next snapshot chunk, already produced and gob-encoded by the real sendMsg
 	pendingMsg    any
@@ -386,7 +387,7 @@ func (s *c24Inst) checkView(key string, b *snapcache.Breadcrumb) {
 func (s *c24Inst) join() {
 	ctx, cancel := context.WithCancel(s.ctx)
 	cl := &c24Client{ctx: ctx, cancel: cancel, view: map[string]string{}, lastRev: map[string]int{}, phase: 1,
-		sig: make(chan c24Sig, 256), resume: make(chan bool)}
+		sig: make(chan c24Sig, 256), resume: make(chan bool), done: make(chan struct{})}
 	cl.crumb = s.cache.CurrentBreadcrumb()
 	cl.joined = cl.crumb
 	cl.iterStart = cl.crumb
@@ -425,6 +426,7 @@ func (s *c24Inst) join() {
 	h.shutDownWG.Add(1)
 	joined := cl.joined
 	go func() {
+		defer close(cl.done)
 		defer func() { cl.sig <- c24Sig{kind: "exit"} }()
 		// what connection.handle does after the handshake (no binary-snapshot cache configured)
 		if err := h.streamSnapshotToClient(h.logCxt, joined); err != nil {
@@ -516,6 +518,9 @@ func (s *c24Inst) leave() {
 	cl := s.cl
 	cl.cancel()
 	s.cache.VerifWake()
+	// Wait until the old connection's goroutine is gone: VerifCondLocked() (how a sender's wait in Next is
+	// recognised) must never observe the mutex held by a different, dying sender.
+	<-cl.done
 	s.cl = nil
 }
 
